@@ -462,6 +462,42 @@ def specials():
         return lambda: DiskDescriptor.parse(text)
     out.append(("vmdk-descriptor", "huge-numbers-and-names", vmdk_descriptor_numbers, 100, 1))
 
+    # two header fields altered together (the single-field catalogue cannot reach states that need both): QCOW2 header walk
+    def qcow2_pairs(work):
+        b, F, T = base_qcow2()
+        names = {f[0]: f for f in F}
+        A = ["backing_off", "backing_size", "header_length", "ext.len", "l1_size", "nb_snapshots", "snapshots_off"]
+        classes = ["max", "signbit", "max-1", "filesize", "zero"]
+        blobs = []
+        for i, fa in enumerate(A):
+            for fb in A[i + 1:]:
+                for ca in classes:
+                    for cb_ in classes:
+                        m = bytearray(b)
+                        for fn_, cl in ((fa, ca), (fb, cb_)):
+                            _, off, size, end = names[fn_]
+                            orig = int.from_bytes(b[off:off + size], "big")
+                            val = field_value(cl, orig, size, off, len(b))
+                            m[off:off + size] = val.to_bytes(size, "big")
+                        blobs.append(bytes(m))
+        # values just above 2^32 in 64-bit fields together with lengths just below 2^32
+        for boff in (1 << 32, (1 << 32) + 8, (1 << 32) + 0x70, 1 << 33):
+            for elen in (0xFFFFFFF0, 0xFFFFFF90, 0xFFFFFFF8 - 0x70, 0xFFFFFFFF, 0x80000000):
+                m = bytearray(b)
+                m[8:16] = struct.pack(">Q", boff)
+                m[16:20] = struct.pack(">I", 10)
+                m[108:112] = struct.pack(">I", elen)
+                blobs.append(bytes(m))
+
+        def go():
+            for blob in blobs:
+                try:
+                    read_qcow2(blob)
+                except Exception:  # noqa: BLE001
+                    pass
+        return go
+    out.append(("qcow2", "two-header-fields-altered-together", qcow2_pairs, 600, 768))
+
     # text inputs cut at every character position / with every single delimiter removed: each parse must return or raise
     def text_cuts(text, parse, delims):
         def run(work):
